@@ -142,6 +142,7 @@ def impl(case):
         except Exception as e:
             return {"error": type(e).__name__, "msg": str(e)[:100]}
     r = Regex(case["text"])
+    r1 = r
     if case["op"] == "combine":
         r2 = Regex(case["text2"])
         if case["comb"] == "union":
@@ -159,6 +160,10 @@ def impl(case):
         out["tree_str_error"] = type(e).__name__
     g = r.to_cfg()
     out["cfg_bits"] = [bool(g.contains([Terminal(a) for a in w])) for w in ws]
+    if case["op"] == "combine":      # the operands must still answer like freshly parsed expressions once the combination has been compiled
+        out["operand_after"] = [[bool(r1.accepts(w)) for w in ws], [bool(r2.accepts(w)) for w in ws] if case["comb"] != "kleene_star" else None]
+        out["operand_fresh"] = [[bool(Regex(case["text"]).accepts(w)) for w in ws],
+                                [bool(Regex(case["text2"]).accepts(w)) for w in ws] if case["comb"] != "kleene_star" else None]
     return out
 
 
@@ -232,6 +237,9 @@ def check_cases(ctx, cases):
         mv = mvs[i]
         if mv is None:
             raise RuntimeError("HARNESS: the reference parser rejects a generated well-formed text: %r" % (c,))
+        if o.get("operand_after") != o.get("operand_fresh"):
+            ctx.fail("combine-changes-operand", c, {"after": o.get("operand_after"), "fresh": o.get("operand_fresh")})
+            continue
         jt, je, bits, js = mv[1]
         if jt != "VEq":
             ctx.fail("parse-tree-language", c, {"verdict": str(jt), "tree": o["tree"]})
